@@ -269,6 +269,11 @@ def query_traversal(node, callback, is_table=False, is_target=False, parent_quer
                 node.from_select = node_out
 
     elif isinstance(node, ast.Delete):
+        if node.table is not None:
+            node_out = query_traversal(node.table, callback, is_table=True, parent_query=node)
+            if node_out is not None:
+                node.table = node_out
+
         if node.where is not None:
             node_out = query_traversal(node.where, callback, parent_query=node)
             if node_out is not None:
